@@ -247,6 +247,16 @@ pub fn run(rep: &mut Report) {
             j_fields(days[di], tod, ts, out)
         });
     }
+    // interior scan (round 8): evenly spread, unremarkable (day, nanosecond of day) pairs over years 0001-9999 in every scale
+    {
+        let nsc: u64 = if q { 50_000 } else { 8_000_000 };
+        rep.bound("interior_scan_points", nsc);
+        let (d0, d1) = (days1900(1, 1, 1) as i128, days1900(9999, 12, 31) as i128);
+        sweep(rep, "c09.scan_fields", 9 * nsc, |i, out| {
+            let k = i / 9;
+            j_fields(lattice::scan_point(k, 1, d0, d1) as i64, lattice::scan_point(k, 2, 0, NS_DAY - 1), SCALES[(i % 9) as usize], out)
+        });
+    }
     for ts in SCALES {
         let el: Vec<i128> = lattice::el(ts, if q { 4 } else { 32 }, Some((-2, 40)));
         sweep(rep, &format!("c09.count[{}]", scale_name(ts)), el.len() as u64, |i, out| j_count(el[i as usize], ts, None, out));
